@@ -188,6 +188,42 @@ def history_stream(ctx, phys, n_seq):
     ctx.count("history:sequences", len(seqs))
 
 
+def multiyear_stream(ctx, phys):
+    """Axis of HybridLoad objects built with multi-year `years` lists: starts at 0, a breakpoint at the
+    end of every calendar month of the load years (in order), ends at the last hour of the last load year.
+    With a leap year in the list the calendar helpers are off (known finding multi-year-leap-calendar)."""
+    jobs = H.multiyear_jobs(ctx.rng, phys)
+    outs = core.pool_map(H.run_multiyear, jobs)
+    for a, o in zip(jobs, outs):
+        years = a["years"]
+        n = 12 * len(years)
+        label = f"HybridLoad(years={years}, {n} months)"
+        replay = {"builder": "hybridlib.run_multiyear", "args": {k: v for k, v in a.items() if k != "phys"}, "phys": a["phys"]}
+        ctx.count("multi-year:" + ("with-leap-year" if H.has_leap(years) else "ordinary-years"))
+        if "raise" in o:
+            ctx.case(("multi-year", tuple(years), a["seed"]), False)
+            ctx.finding("multi-year-raise", f"{label} raised {o['raise']}", replay)
+            continue
+        ctx.case(("multi-year", tuple(years), a["seed"]), True)
+        hour = o["snap"]["hour"]
+        bad = None
+        if hour[0] != 0.0 or hour[1] != 0.0:
+            bad = f"starts at {hour[:2]}"
+        j = 2
+        for i in range(1, n + 1):
+            e = float(H.oracle_month_end(i, years))
+            while j < len(hour) and hour[j] != e:
+                j += 1
+            if j >= len(hour):
+                bad = bad or f"the last hour of month {i} ({e}) is not a breakpoint (in order)"
+                break
+            j += 1
+        if hour[-1] != float(H.oracle_month_end(n, years)):
+            bad = (bad + "; " if bad else "") + f"the axis ends at hour {hour[-1]}, the {len(years)} load years end at hour {H.oracle_month_end(n, years)}"
+        if bad:
+            ctx.finding("multi-year-leap-calendar" if H.has_leap(years) else "multi-year-axis", f"{label}: {bad}", replay)
+
+
 def glue_streams(ctx, phys, quick):
     """(1) The C06 GHE call history (real GHE objects, start months 1/2/4/7/12, leap load years) with
     profiles whose last-month peak lies on the last day of the horizon and runs past its end: the axis
@@ -321,6 +357,7 @@ def run(ctx: core.Ctx):
 
     # ------------------------------------------------------------------ the glue: GHE simulate/size histories, GHEManager histories
     glue_streams(ctx, physs[0], quick)
+    multiyear_stream(ctx, physs[0])
 
     # ------------------------------------------------------------------ arbitrary monthly arrays (incl. start_month > 1)
     arr = H.explore_process_only(ctx, 300 if quick else 6000)
